@@ -662,10 +662,21 @@ impl TypeSpace {
 
             match maybe_replace {
                 None => {
-                    let type_name = if let RefKey::Def(name) = ref_name {
-                        Name::Required(name.clone())
-                    } else {
-                        Name::Unknown
+                    let type_name = match (&ref_name, &schema) {
+                        (RefKey::Def(name), _) => Name::Required(name.clone()),
+                        // The root type is named by its title; inline
+                        // sub-types derive their names from it as well.
+                        (
+                            RefKey::Root,
+                            Schema::Object(schemars::schema::SchemaObject {
+                                metadata: Some(metadata),
+                                ..
+                            }),
+                        ) => metadata
+                            .title
+                            .clone()
+                            .map_or(Name::Unknown, Name::Suggested),
+                        _ => Name::Unknown,
                     };
                     self.convert_ref_type(type_name, schema, type_id)?
                 }
